@@ -713,3 +713,47 @@ NONTRIVIAL = {
     "C10": lambda inp, out: models_of(inp)[1] is not None and inp[models_of(inp)[1]] != 0 and any(
         o in (2, 13) for o, a, r in _ops(inp, out)),
 }
+
+
+def op_slices(inp):
+    """(start index of the ops, list of (begin, end) slices, one per op)"""
+    ms, i = models_of(inp)
+    nw = inp[i + 1]
+    i += 2 + nw
+    start = i
+    sl = []
+    while i < len(inp):
+        op = inp[i]
+        if op == 1:
+            n = 3
+        elif op in (2,):
+            n = 2
+        elif op in (3, 4, 5, 6, 7, 8, 12, 14, 16):
+            n = 1
+        elif op in (9, 10):
+            n = 3 + inp[i + 2]
+        elif op == 11:
+            n = 4 + inp[i + 2]
+        elif op == 13:
+            n = 3
+        elif op == 15:
+            n = 2 + inp[i + 1]
+        else:
+            break
+        sl.append((i, i + n))
+        i += n
+    return start, sl
+
+
+def shrink_candidates(inp):
+    """smaller variants of a case: drop chunks of ops (delta debugging order: halves first)"""
+    start, sl = op_slices(inp)
+    n = len(sl)
+    k = max(1, n // 2)
+    while k >= 1:
+        for a in range(0, n, k):
+            keep = sl[:a] + sl[a + k:]
+            yield inp[:start] + [x for b, e in keep for x in inp[b:e]]
+        if k == 1:
+            break
+        k //= 2
